@@ -248,6 +248,10 @@ def run(ctx):
         cases, tasks, obs = run_config(ctx, pool, 'single file', 4 if quick else 5, ALL, 'none')
         icases, itasks, iobs = run_config(ctx, pool, 'with inclusion', 3 if quick else 4, INCL, 'std',
                                           sample=(12000 if quick else 300000))
+        # longer main files over the kinds that matter for the phase an included file starts in (repeated phase
+        # declarations with inclusions between them)
+        run_config(ctx, pool, 'with inclusion, repeated phases', 5 if quick else 6, ['Hs', 'Ha', 'I', 'IB', 'IC'], 'std',
+                   sample=(15000 if quick else 300000))
         # the location PRINTED by the CLI for syntax errors (sample)
         err_idx = [j for j, c in enumerate(cases) if c['err'] and not c['unspec'] and not has_d11_signature(c)]
         err_idx = rnd.sample(err_idx, min(len(err_idx), 1500 if quick else 15000))
